@@ -200,7 +200,61 @@ def variant_swapif(src, fn):
     return apply_edits(src, edits)
 
 
-KINDS = {"swapif": variant_swapif, "rename": variant_rename, "flipcmp": variant_flipcmp, "noise": variant_noise, "noise2": variant_noise2}
+def _simple_store(st):
+    """(targets written, names/attrs read) of an assignment without calls, else None"""
+    if not isinstance(st, ast.Assign) or len(st.targets) != 1:
+        return None
+    t = st.targets[0]
+    if not (isinstance(t, ast.Name) or (isinstance(t, ast.Attribute) and isinstance(t.value, ast.Name))):
+        return None
+    for n in ast.walk(st.value):
+        if isinstance(n, (ast.Call, ast.Subscript, ast.Await, ast.Yield, ast.YieldFrom, ast.NamedExpr, ast.Lambda, ast.ListComp, ast.DictComp, ast.SetComp, ast.GeneratorExp)):
+            return None
+    w = ast.unparse(t)
+    r = {ast.unparse(n) for n in ast.walk(st.value) if isinstance(n, (ast.Name, ast.Attribute))}
+    return w, r
+
+
+def variant_swapind(src, fn):
+    """swap adjacent, provably independent assignments (no calls, disjoint targets, neither reads the other's
+    target): behaviour-preserving; rules must not depend on their relative order"""
+    edits = []
+    lines = src.splitlines()
+    def blocks(node):
+        for f in ("body", "orelse", "finalbody"):
+            b = getattr(node, f, None)
+            if isinstance(b, list) and b and isinstance(b[0], ast.stmt):
+                yield b
+        if isinstance(node, ast.Try):
+            for h in node.handlers:
+                yield h.body
+    def rec(node):
+        for b in blocks(node):
+            i = 0
+            while i < len(b) - 1:
+                a, c = b[i], b[i + 1]
+                sa_, sc = _simple_store(a), _simple_store(c)
+                ok = sa_ and sc and sa_[0] != sc[0] and sa_[0] not in sc[1] and sc[0] not in sa_[1] and a.col_offset == c.col_offset \
+                    and not sa_[0].startswith(sc[0] + ".") and not sc[0].startswith(sa_[0] + ".") \
+                    and not any(x.startswith(sa_[0] + ".") or x == sa_[0] for x in sc[1]) and not any(x.startswith(sc[0] + ".") or x == sc[0] for x in sa_[1])
+                if ok and not lines[a.lineno - 1][: a.col_offset].strip() and not lines[c.lineno - 1][: c.col_offset].strip():
+                    ta, tc = ast.get_source_segment(src, a), ast.get_source_segment(src, c)
+                    if ta and tc:
+                        edits.append((a.lineno, a.col_offset, a.end_lineno, a.end_col_offset, tc))
+                        edits.append((c.lineno, c.col_offset, c.end_lineno, c.end_col_offset, ta))
+                        i += 2
+                        continue
+                i += 1
+            for st in b:
+                if not isinstance(st, (ast.FunctionDef, ast.AsyncFunctionDef, ast.ClassDef)):
+                    rec(st)
+    rec(fn)
+    if not edits:
+        return None
+    return apply_edits(src, edits)
+
+
+KINDS = {"swapind": variant_swapind, "swapif": variant_swapif, "rename": variant_rename, "flipcmp": variant_flipcmp, "noise": variant_noise, "noise2": variant_noise2}
 
 
 def job(args):
@@ -230,7 +284,7 @@ def job(args):
     return (rel, q, kind, "FAIL" if bad else "ok", bad)
 
 
-def run_for_property(pid, root=ROOT, kinds=("rename", "flipcmp", "swapif", "noise2"), jobs=16):
+def run_for_property(pid, root=ROOT, kinds=("rename", "flipcmp", "swapif", "noise2", "swapind"), jobs=16):
     """must-stay-silent variants of the files this property's rules read, checked against this property only"""
     global ROOT
     ROOT = root
